@@ -28,7 +28,10 @@ CTRL = "\x08\x0b\x0c\r"
 
 def text_str(max_size=14):
     alpha = st.one_of(st.sampled_from("abcxyz012"), st.sampled_from("abcxyz012"), st.just(" "), st.just(" "), st.sampled_from(["\n", "\t"]), st.sampled_from(GC.WIDE[:6]), st.sampled_from(GC.ZERO[:3]), st.sampled_from(CTRL))
-    return st.text(alpha, max_size=max_size)
+    short = st.text(alpha, max_size=max_size)
+    # now and then a long text whose length sits on a multiple of 64 (cell measurement treats long strings differently)
+    long_ = st.builds(lambda unit, n: (unit * 200)[:n], st.sampled_from(["ab", "x", "a " + GC.WIDE[0]]), st.sampled_from([64, 128, 129, 192]))
+    return st.one_of(short, short, short, short, short, short, short, short, short, long_) if max_size >= 14 else short
 
 
 def style_opt():
@@ -70,8 +73,8 @@ def op_strategy():
         st.tuples(st.just("index"), i, off),
         st.tuples(st.just("slice"), i, st.one_of(st.none(), off), st.one_of(st.none(), off)),
         st.tuples(st.sampled_from(["pad", "pad_left", "pad_right"]), i, st.integers(0, 4), ch),
-        st.tuples(st.just("align"), i, st.sampled_from(["left", "center", "right"]), st.integers(1, 24), ch),
-        st.tuples(st.just("truncate"), i, st.integers(1, 24), st.sampled_from([None, "crop", "fold", "ellipsis", "ignore"]), st.booleans()),
+        st.tuples(st.just("align"), i, st.sampled_from(["left", "center", "right"]), st.one_of(st.integers(1, 24), st.integers(1, 200)), ch),
+        st.tuples(st.just("truncate"), i, st.one_of(st.integers(1, 24), st.integers(1, 200)), st.sampled_from([None, "crop", "fold", "ellipsis", "ignore"]), st.booleans()),
         st.tuples(st.just("right_crop"), i, st.integers(0, 20)),
         st.tuples(st.just("remove_suffix"), i, st.one_of(st.integers(0, 4), st.sampled_from(["", "a", "zz"]))),
         st.tuples(st.just("rstrip"), i),
